@@ -1,7 +1,8 @@
 """pyhms.minimize() (hms.py)  ->  Gen/GenMinimize.v : the plan it sets up — the default budget, the evaluation-cutoff wrapper on the ONE
 FunctionProblem both levels share, the global stop condition chosen from maxfun / maxiter, and which counter / individual the
-OptimizeResult reports.  maxfun / maxiter are `option Z`; `x is None` / `x is not None` are the only tests understood (truthiness such
-as `if not maxfun` is refused: 0 is a budget)."""
+OptimizeResult reports.  Sink-driven: the arguments of TreeConfig(...) / DemeTree(...) / OptimizeResult(...) are expressed in terms of the
+parameters by inlining every local (hv/translate/lazy.py), then interpreted.  maxfun / maxiter are `option Z`; `x is None` /
+`x is not None` are the only tests understood (truthiness such as `if not maxfun` is refused: 0 is a budget)."""
 import ast
 
 from .core import Unsupported, find_def
@@ -19,10 +20,20 @@ def bad(node, what):
 class Tr:
     def __init__(self, consts):
         self.consts = consts
-        self.ver = {"maxfun": 0, "maxiter": 0}
 
-    def cur(self, name):
-        return f"{name}{self.ver[name]}"
+    def optz(self, e):
+        """an expression of type option Z over the parameters maxfun / maxiter"""
+        if isinstance(e, ast.Name) and e.id in ("maxfun", "maxiter"):
+            return e.id + "0"
+        if isinstance(e, ast.Name) and e.id in self.consts:
+            return f"(Some {self.consts[e.id]})"
+        if isinstance(e, ast.Constant) and type(e.value) is int and e.value >= 0:
+            return f"(Some {e.value})"
+        if isinstance(e, ast.Constant) and e.value is None:
+            return "None"
+        if isinstance(e, ast.IfExp):
+            return f"(if {self.test(e.test)} then {self.optz(e.body)} else {self.optz(e.orelse)})"
+        bad(e, "budget expression")
 
     def test(self, t):
         if isinstance(t, ast.BoolOp):
@@ -32,27 +43,44 @@ class Tr:
             for p in reversed(parts[:-1]):
                 code = f"({op} {p} {code})"
             return code
-        if isinstance(t, ast.UnaryOp) and isinstance(t.op, ast.Not) and isinstance(t.operand, (ast.BoolOp, ast.Compare)):
+        if isinstance(t, ast.UnaryOp) and isinstance(t.op, ast.Not) and isinstance(t.operand, (ast.BoolOp, ast.Compare, ast.UnaryOp)):
             return f"(negb {self.test(t.operand)})"
-        if isinstance(t, ast.Compare) and len(t.ops) == 1 and isinstance(t.left, ast.Name) and t.left.id in self.ver \
-                and isinstance(t.comparators[0], ast.Constant) and t.comparators[0].value is None:
-            if isinstance(t.ops[0], ast.Is):
-                return f"(is_none {self.cur(t.left.id)})"
-            if isinstance(t.ops[0], ast.IsNot):
-                return f"(is_some {self.cur(t.left.id)})"
+        if isinstance(t, ast.Compare) and len(t.ops) == 1 and isinstance(t.comparators[0], ast.Constant) and t.comparators[0].value is None and isinstance(t.ops[0], (ast.Is, ast.IsNot)):
+            return f"({'is_none' if isinstance(t.ops[0], ast.Is) else 'is_some'} {self.optz(t.left)})"
         bad(t, "test (only `maxfun is None` / `is not None` and their combinations are understood; truthiness would treat a budget of 0 as absent)")
 
-    def optz(self, e):
-        """an expression of type option Z: maxfun / maxiter / an int constant / a module constant"""
-        if isinstance(e, ast.Name) and e.id in self.ver:
-            return self.cur(e.id)
-        if isinstance(e, ast.Name) and e.id in self.consts:
-            return f"(Some {self.consts[e.id]})"
-        if isinstance(e, ast.Constant) and type(e.value) is int and e.value >= 0:
-            return f"(Some {e.value})"
-        if isinstance(e, ast.Constant) and e.value is None:
-            return "None"
-        bad(e, "budget expression")
+    def problem(self, e):
+        """stack code of a problem expression (outermost wrapper first) and the direction of the FunctionProblem underneath"""
+        if isinstance(e, ast.IfExp):
+            a, ma = self.problem(e.body)
+            b, mb = self.problem(e.orelse)
+            if ma != mb:
+                bad(e, "direction differs between the branches")
+            return f"(if {self.test(e.test)} then {a} else {b})", ma
+        if isinstance(e, ast.Call) and dotted(e.func) == "EvalCutoffProblem":
+            kw = {k.arg: k.value for k in e.keywords}
+            inner = e.args[0] if e.args else kw.get("decorated_problem")
+            cut = e.args[1] if len(e.args) > 1 else kw.get("eval_cutoff")
+            if inner is None or cut is None:
+                bad(e, "EvalCutoffProblem arguments")
+            st, mx = self.problem(inner)
+            return f"((KCutoff, fresh_cutoff (oget {self.optz(cut)})) :: {st})", mx
+        if isinstance(e, ast.Call) and dotted(e.func) == "FunctionProblem":
+            kw = {k.arg: k.value for k in e.keywords}
+            mx = kw.get("maximize")
+            if not (isinstance(mx, ast.Constant) and isinstance(mx.value, bool)) or not e.args or ast.unparse(e.args[0]) != "fun":
+                bad(e, "FunctionProblem(fun, maximize=<bool>, bounds=...)")
+            return "[]", "true" if mx.value else "false"
+        bad(e, "problem expression")
+
+    def gsc(self, e):
+        if isinstance(e, ast.IfExp):
+            return f"(if {self.test(e.test)} then {self.gsc(e.body)} else {self.gsc(e.orelse)})"
+        if isinstance(e, ast.Call) and dotted(e.func) == "SingularProblemEvalLimitReached" and len(e.args) == 1 and not e.keywords:
+            return f"(ByEvals (oget {self.optz(e.args[0])}))"
+        if isinstance(e, ast.Call) and dotted(e.func) == "MetaepochLimit" and len(e.args) == 1 and not e.keywords:
+            return f"(ByMetaepochs {self.optz(e.args[0])})"
+        bad(e, "global stop condition")
 
 
 def translate(repo):
@@ -70,116 +98,59 @@ def translate(repo):
         if not (isinstance(dflt.get(a), ast.Constant) and dflt[a].value is None):
             raise Unsupported(f"{SRC}:{fn.lineno}: default of {a} is not None")
     tr = Tr(consts)
-    lets = []
-    body = list(fn.body)
-    ret = body[-1]
-    if not (isinstance(ret, ast.Return) and isinstance(ret.value, ast.Call) and dotted(ret.value.func) == "OptimizeResult" and not ret.value.args):
-        bad(ret, "last statement (must be return OptimizeResult(x=..., nfev=..., fun=..., nit=...))")
-    tree_name = levels = gsc_expr = None
-    problems = {}         # local name -> ("base", maximize) | ("wrapped", code of the stack)
-    for s in body[:-1]:
-        if isinstance(s, ast.Expr) and isinstance(s.value, ast.Constant):
-            continue
-        if isinstance(s, ast.AnnAssign) and s.value is not None:
-            s = ast.copy_location(ast.Assign(targets=[s.target], value=s.value), s)
-        # `if <test>: maxfun = <budget>` (no else): a new version of maxfun / maxiter
-        if isinstance(s, ast.If) and not s.orelse and len(s.body) == 1 and isinstance(s.body[0], ast.Assign) and isinstance(s.body[0].targets[0], ast.Name) \
-                and s.body[0].targets[0].id in tr.ver:
-            nm = s.body[0].targets[0].id
-            t, v, old = tr.test(s.test), tr.optz(s.body[0].value), tr.cur(nm)
-            tr.ver[nm] += 1
-            lets.append(f"let {tr.cur(nm)} := if {t} then {v} else {old} in")
-            continue
-        if isinstance(s, ast.If) and ast.unparse(s.test) == "isinstance(bounds, list)" and all(isinstance(x, ast.Assign) and ast.unparse(x.targets[0]) == "bounds" for x in s.body) and not s.orelse:
-            continue
-        if isinstance(s, ast.Assign) and len(s.targets) == 1 and isinstance(s.targets[0], ast.Name):
-            nm, v = s.targets[0].id, s.value
-            if nm in tr.ver:
-                bad(s, "unconditional reassignment of the budget")
-            if isinstance(v, ast.Call) and dotted(v.func) == "FunctionProblem":
-                kw = {k.arg: k.value for k in v.keywords}
-                mx = kw.get("maximize")
-                if not (isinstance(mx, ast.Constant) and isinstance(mx.value, bool)) or not v.args or ast.unparse(v.args[0]) != "fun" or ast.unparse(kw.get("bounds", ast.Constant(0))) != "bounds":
-                    bad(s, "FunctionProblem(fun, maximize=<bool>, bounds=bounds)")
-                problems[nm] = ("base", "true" if mx.value else "false")
-                continue
-
-            def wrapped(e):
-                """stack code of a problem expression"""
-                if isinstance(e, ast.Name) and e.id in problems:
-                    return "[]" if problems[e.id][0] == "base" else problems[e.id][1]
-                if isinstance(e, ast.Call) and dotted(e.func) == "EvalCutoffProblem":
-                    kw = {k.arg: k.value for k in e.keywords}
-                    inner = e.args[0] if e.args else kw.get("decorated_problem")
-                    cut = e.args[1] if len(e.args) > 1 else kw.get("eval_cutoff")
-                    if inner is None or cut is None:
-                        bad(e, "EvalCutoffProblem arguments")
-                    return f"((KCutoff, fresh_cutoff (oget {tr.optz(cut)})) :: {wrapped(inner)})"
-                if isinstance(e, ast.IfExp):
-                    return f"(if {tr.test(e.test)} then {wrapped(e.body)} else {wrapped(e.orelse)})"
-                bad(e, "problem expression")
-            if (isinstance(v, ast.IfExp) and any(isinstance(n, ast.Call) and dotted(n.func) == "EvalCutoffProblem" for n in ast.walk(v))) or (isinstance(v, ast.Call) and dotted(v.func) == "EvalCutoffProblem"):
-                problems[nm] = ("wrapped", wrapped(v))
-                continue
-            if nm == "gsc":
-                gsc_expr = v
-                continue
-            if nm == "level_config":
-                levels = v
-                continue
-            if isinstance(v, ast.Call) and dotted(v.func) == "DemeTree":
-                tree_name = nm
-                continue
-            if any(isinstance(n, ast.Name) and (n.id in tr.ver or n.id in problems) for n in ast.walk(v)):
-                bad(s, "use of the budget / the problem")
-            continue
-        if isinstance(s, ast.If) and any(isinstance(n, ast.Name) and (n.id in tr.ver or n.id in problems) for n in ast.walk(s)):
-            bad(s, "conditional on the budget")
-        if isinstance(s, ast.Expr) and isinstance(s.value, ast.Call) and tree_name and ast.unparse(s.value) == f"{tree_name}.run()":
-            continue
-        if any(isinstance(n, ast.Name) and (n.id in tr.ver or n.id in problems) for n in ast.walk(s)):
-            bad(s, "statement using the budget / the problem")
-    if gsc_expr is None or levels is None or tree_name is None:
-        raise Unsupported(f"{SRC}:{fn.lineno}: minimize(): gsc / level_config / the tree not found")
-
-    def gsc(e):
-        if isinstance(e, ast.IfExp):
-            return f"(if {tr.test(e.test)} then {gsc(e.body)} else {gsc(e.orelse)})"
-        if isinstance(e, ast.Call) and dotted(e.func) == "SingularProblemEvalLimitReached" and len(e.args) == 1 and not e.keywords:
-            return f"(ByEvals (oget {tr.optz(e.args[0])}))"
-        if isinstance(e, ast.Call) and dotted(e.func) == "MetaepochLimit" and len(e.args) == 1 and not e.keywords:
-            return f"(ByMetaepochs {tr.optz(e.args[0])})"
-        bad(e, "global stop condition")
-    gsc_code = gsc(gsc_expr)
-    # both levels are given the same problem object
-    if not (isinstance(levels, ast.List) and len(levels.elts) == 2 and all(isinstance(x, ast.Call) for x in levels.elts)):
-        bad(levels, "level_config (two levels expected)")
-    probs = [ast.unparse({k.arg: k.value for k in x.keywords}.get("problem", ast.Constant(None))) for x in levels.elts]
-    if len(set(probs)) != 1 or probs[0] not in problems:
-        bad(levels, f"problems of the two levels {probs}")
-    shared = probs[0]
-    stack = "[]" if problems[shared][0] == "base" else problems[shared][1]
-    base = [n for n, v in problems.items() if v[0] == "base"]
-    mx = problems[base[0]][1] if base else "false"
+    ret = [s for s in fn.body if isinstance(s, ast.Return)]
+    if len(ret) != 1 or fn.body[-1] is not ret[0] or any(isinstance(n, ast.Return) for s in fn.body[:-1] for n in ast.walk(s)):
+        bad(fn, "control flow (one return, at the end)")
+    ret = ret[0]
+    # the tree: DemeTree(<config>) assigned to a local, run once
+    trees = [s for s in fn.body if isinstance(s, ast.Assign) and isinstance(s.value, ast.Call) and dotted(s.value.func) == "DemeTree" and isinstance(s.targets[0], ast.Name)]
+    if len(trees) != 1 or len(trees[0].value.args) != 1:
+        bad(fn, "the tree (one DemeTree(config))")
+    tree_name = trees[0].targets[0].id
+    if sum(1 for s in fn.body if isinstance(s, ast.Expr) and ast.unparse(s.value) == f"{tree_name}.run()") != 1:
+        bad(fn, "the tree is not run exactly once")
+    RP = ("maxfun", "maxiter")
+    # which local names hold problems?  the two levels must be handed ONE AND THE SAME object
+    inl_names = Inliner(fn, SRC, reassigned_params=RP)
+    cfg = inl_names.inline(trees[0].value.args[0], trees[0])
+    if not (isinstance(cfg, ast.Call) and dotted(cfg.func) == "TreeConfig" and len(cfg.args) >= 2):
+        bad(cfg, "tree configuration (TreeConfig(levels, gsc, sprout, options=...))")
+    # look at the levels BEFORE inlining the problem: find the `level_config` list expression with names intact
+    lv_assign = [s for s in fn.body if isinstance(s, ast.Assign) and isinstance(s.value, ast.List) and len(s.value.elts) == 2 and all(isinstance(x, ast.Call) for x in s.value.elts)
+                 and all(any(k.arg == "problem" for k in x.keywords) for x in s.value.elts)]
+    if len(lv_assign) != 1:
+        bad(fn, "level configuration (one list of two level configs with problem=...)")
+    probs = [{k.arg: k.value for k in x.keywords}["problem"] for x in lv_assign[0].value.elts]
+    if not all(isinstance(p, ast.Name) for p in probs) or len({p.id for p in probs}) != 1:
+        bad(lv_assign[0], "problems of the two levels (must be one and the same local variable, i.e. one object)")
+    shared = probs[0].id
+    if ast.unparse(inl_names.inline(lv_assign[0].value, lv_assign[0])) != ast.unparse(cfg.args[0]):
+        bad(cfg.args[0], "levels handed to TreeConfig")
+    stack, mx = tr.problem(Inliner(fn, SRC, reassigned_params=RP).inline(probs[0], lv_assign[0]))
+    gsc_code = tr.gsc(cfg.args[1])
     # the result
+    if not (isinstance(ret.value, ast.Call) and dotted(ret.value.func) == "OptimizeResult" and not ret.value.args):
+        bad(ret, "last statement (must be return OptimizeResult(x=..., nfev=..., fun=..., nit=...))")
     kw = {k.arg: k.value for k in ret.value.keywords}
+    inl_res = Inliner(fn, SRC, keep=(tree_name, shared), reassigned_params=RP)
 
     def nfev(e):
         if isinstance(e, ast.IfExp):
             return f"(if {tr.test(e.test)} then {nfev(e.body)} else {nfev(e.orelse)})"
         u = ast.unparse(e)
-        if u == f"{shared}.n_evaluations" and problems[shared][0] == "wrapped":
-            return "FromCutoffWrapper"
+        if u == f"{shared}.n_evaluations":
+            return "FromCutoffWrapper"       # the counter of the outermost wrapper of the shared problem (meaningful where a cutoff was installed: proved)
         if u == f"{tree_name}.n_evaluations":
             return "FromTree"
         bad(e, "nfev")
-    nfev_code = nfev(kw.get("nfev", ast.Constant(None)))
+    if "nfev" not in kw:
+        bad(ret, "OptimizeResult without nfev")
+    nfev_code = nfev(inl_res.inline(kw["nfev"], ret))
     flags = {"x": f"{tree_name}.best_individual.genome", "fun": f"{tree_name}.best_individual.fitness", "nit": f"{tree_name}.metaepoch_count"}
-    inl = Inliner(fn, SRC, keep=("maxfun", "maxiter", tree_name))
-    fl = {k: ("true" if ast.unparse(inl.inline(kw[k], ret)) == v else "false") if k in kw else "false" for k, v in flags.items()}
+    fl = {k: ("true" if k in kw and ast.unparse(inl_res.inline(kw[k], ret)) == v else "false") for k, v in flags.items()}
     out = ["(* GENERATED from pyhms/hms.py by hv/translate/minimize_py.py — do not edit *)", "From Coq Require Import ZArith List Bool.",
            "From HV Require Import F64 WMonad Problem Minimize.", "Import ListNotations.", "Local Open Scope Z_scope.", "",
-           "Definition gen_minimize_plan (maxfun0 maxiter0 : option Z) : plan :=\n  " + "\n  ".join(lets) +
-           f"\n  {{| pl_stack := {stack}; pl_maximize := {mx}; pl_gsc := {gsc_code}; pl_nfev := {nfev_code}; pl_levels_share_problem := true;\n"
+           "Definition gen_minimize_plan (maxfun0 maxiter0 : option Z) : plan :=\n"
+           f"  {{| pl_stack := {stack}; pl_maximize := {mx}; pl_gsc := {gsc_code}; pl_nfev := {nfev_code}; pl_levels_share_problem := true;\n"
            f"     pl_x_is_tree_best := {fl['x']}; pl_fun_is_tree_best := {fl['fun']}; pl_nit_is_metaepochs := {fl['nit']} |}}.\n"]
     return {"GenMinimize.v": "\n".join(out)}, [f"{SRC}:minimize"]
